@@ -6,6 +6,7 @@ PROP = "C17"
 LEVEL = "exploration"
 SHARDS = {"quick": 8, "thorough": 16}
 TIMEOUT = {"quick": 900, "thorough": 7200}
+THOROUGH_MULT = 4   # thorough budgets below are multiplied by this (sized for roughly five minutes on 16 cores)
 REQUIRED = {"parse_format": 3000, "by_path": 800, "malformed": 800, "deep": 200, "lenient": 40}
 ANCHORS = ['wallet_utils:Bip32Path.parse', 'wallet_utils:Bip32Path.convert_hardened', 'wallet_utils:Bip32Path.__repr__', 'base_wallet:BaseWallet.by_path', 'bip32:PubKeyNode.__repr__']
 RULE = ("well-formed: index lists of length 0..5 over [0,2^32) with edge values, both markers (' and h, mixed), both root "
